@@ -39,7 +39,10 @@ TraceStart  == IsEvent("start")  /\ StartCore(Ev.r) /\ UNCHANGED h
 TraceEnd    == IsEvent("end")    /\ EndCore(Ev.r, Ev.out, Ev.val, Ev.st) /\ UNCHANGED h
 TraceReturn == IsEvent("return") /\ ~Ev.panic /\ ReturnCore(Ev.err, IF CheckKeys THEN KeysOf(Ev) ELSE result) /\ UNCHANGED h
 
-TraceProper == TraceSession \/ TraceBegin \/ TraceStart \/ TraceEnd \/ TraceReturn
+\* hook "result_write" (C19): the result map is written with the engine's lock held
+TraceResWrite == IsEvent("reswrite") /\ Ev.locked = 1 /\ UNCHANGED vars
+
+TraceProper == TraceSession \/ TraceBegin \/ TraceStart \/ TraceEnd \/ TraceReturn \/ TraceResWrite
 
 \* Exec is deterministic once the event arguments are bound, so "no action
 \* explains line l" is a property of the single state at position l.  The
